@@ -48,8 +48,11 @@ namespace glm
 			// Different signs means they do not match.
 			if(a.negative() != b.negative())
 			{
-				// Check for equality to make sure +0==-0
-				Result[i] = a.mantissa() == b.mantissa() && a.exponent() == b.exponent();
+				// +0 and -0 are the same point: the distance is the sum of the distances to zero
+				typename detail::float_t<T>::int_type const Max = static_cast<typename detail::float_t<T>::int_type>(MaxULPs[i]);
+				typename detail::float_t<T>::int_type const DistA = a.i & std::numeric_limits<typename detail::float_t<T>::int_type>::max();
+				typename detail::float_t<T>::int_type const DistB = b.i & std::numeric_limits<typename detail::float_t<T>::int_type>::max();
+				Result[i] = DistA <= Max && DistB <= Max && DistA + DistB <= Max;
 			}
 			else
 			{
